@@ -274,11 +274,17 @@ def other_spellings_case(ctx, n_random):
     one the specifications of this check are evaluated on, so equality with it transfers their verdict."""
     import targeted
     progs = [p for p in targeted.all_families() if "text" not in p] + progrun.generate(ctx.seed + 77, n_random, sizes=(3, 12))
+    styles = surface.STYLES
+    rp = vlib.replay_case(ctx)
+    if rp is not None and rp.get("surface_program"):
+        if not rp.get("style"):
+            return                       # a replay of another kind of case
+        progs, styles = [rp["surface_program"]], (rp["style"],)
     texts, owner = [], []
     for i, p in enumerate(progs):
         plain_text = surface.to_python(p)
         texts.append(plain_text); owner.append((i, None))
-        for st in surface.STYLES:
+        for st in styles:
             t = surface.to_python(p, st)
             if t != plain_text:          # the style changes nothing in this program
                 texts.append(t); owner.append((i, st))
